@@ -28,6 +28,82 @@ type selfVariant struct {
 var plusRe = regexp.MustCompile(`(?m)^\+\+\+ b/(\S+)`)
 var openRe = regexp.MustCompile(`open: \[(R[\d.]+[a-z]?)\]`)
 
+// mechanical rewrites applied to a scratch copy of the whole tree; the
+// property's rules must stay silent on each.  tagswitch turns the lexers' and
+// the statement table's large dispatch switches into if-chains, which the
+// rules of C03, C04 and C09 read as tables (DESIGN §7.3): not run for those.
+var mechKinds = []string{"invert", "nest", "merge", "chain", "tagswitch", "unelse", "elseify", "elseflat", "orsplit", "contguard", "wrapcont", "incdec", "vardecl", "rename", "reorderdecls"}
+
+func runMechanical(prop, repo, verifd string) []selfVariant {
+	var out []selfVariant
+	for _, t := range mechKinds {
+		if t == "tagswitch" && (prop == "C03" || prop == "C04" || prop == "C09") {
+			continue
+		}
+		v := selfVariant{ID: "mechanical/" + t, Status: "neutralised", Note: "mechanical behaviour-preserving rewrite of every file; must NOT fire"}
+		tmp, err := os.MkdirTemp("", "yvmech")
+		if err != nil {
+			continue
+		}
+		// copy the tree (sources and module files; no .git)
+		copyErr := filepath.Walk(repo, func(path string, info os.FileInfo, err error) error {
+			if err != nil {
+				return err
+			}
+			rel, _ := filepath.Rel(repo, path)
+			if info.IsDir() {
+				if info.Name() == ".git" {
+					return filepath.SkipDir
+				}
+				return os.MkdirAll(filepath.Join(tmp, rel), 0o755)
+			}
+			if !info.Mode().IsRegular() {
+				return nil
+			}
+			data, err := os.ReadFile(path)
+			if err != nil {
+				return err
+			}
+			return os.WriteFile(filepath.Join(tmp, rel), data, 0o644)
+		})
+		if copyErr != nil {
+			v.Status, v.Note = "skipped", "scratch copy failed: "+copyErr.Error()
+			out = append(out, v)
+			os.RemoveAll(tmp)
+			continue
+		}
+		n := mechRewrite(t, tmp)
+		v.Note += fmt.Sprintf(" (%d statements rewritten)", n)
+		cmd := exec.Command(os.Args[0], "-prop", prop, "-tier", "quick", "-repo", tmp, "-verif", verifd)
+		cmd.Env = append(os.Environ(), "YV_SELFTEST=1")
+		o, _ := cmd.CombinedOutput()
+		code := cmd.ProcessState.ExitCode()
+		rules := map[string]bool{}
+		sc := bufio.NewScanner(strings.NewReader(string(o)))
+		for sc.Scan() {
+			for _, m := range openRe.FindAllStringSubmatch(sc.Text(), -1) {
+				rules[m[1]] = true
+			}
+		}
+		for r := range rules {
+			v.Rules = append(v.Rules, r)
+		}
+		sort.Strings(v.Rules)
+		switch {
+		case code == 0:
+			v.Note += "; silent as required"
+		case code == 1:
+			v.Status = "false-alarm"
+		default:
+			v.Status = "skipped"
+			v.Note = fmt.Sprintf("rewritten copy could not be analysed (exit %d)", code)
+		}
+		out = append(out, v)
+		os.RemoveAll(tmp)
+	}
+	return out
+}
+
 func runSelfTest(prop, repo, verifd string) []selfVariant {
 	var out []selfVariant
 	dirs, _ := filepath.Glob(filepath.Join(verifd, "seeded", prop+"*"))
@@ -141,5 +217,6 @@ func runSelfTest(prop, repo, verifd string) []selfVariant {
 		out = append(out, v)
 		os.RemoveAll(tmp)
 	}
+	out = append(out, runMechanical(prop, repo, verifd)...)
 	return out
 }
